@@ -649,3 +649,67 @@ fn c07_owned_vs_view_default_delegation() {
     assert!(h.execution() == Execution::OffReader);
     owned_vs_view_filtered(&h, None, 3);
 }
+
+// ---- borrowing bulk route: aligned and plain bodies, owned vs borrowed dispatch ----
+fn ref_handler_paths<const ALIGNED: bool>() {
+    let xs: [u16; 2] = kani::any();
+    let id: u64 = kani::any();
+    let q = [b'/', b'v', b'x'];
+    let b0 = Message::builder().id(id).query_bytes(q.to_vec()).query_format_code(1);
+    let req = if ALIGNED { b0.body_aligned_typed_slice(&xs).build() } else { b0.body_typed_slice(&xs).build() };
+    let h = TypedSliceRefHandler::<u16, u16, _>(|v: &[u16]| Ok(v.to_vec()), std::marker::PhantomData);
+    let ctx = CallContext::detached("/vx");
+    let view = MessageView { header: req.header, query: &req.query, body: &req.body };
+    let a = h.handle_with_ctx(&req, &ctx);
+    let b = h.handle_view(&view, &ctx);
+    match (&a, &b) {
+        (Ok(x), Ok(y)) => {
+            assert!(same_after_echo(x, y, &q), "copying and zero-copy paths answer differently");
+            assert!(x.header.ec == 0, "a well-formed bulk request was rejected");
+            // the echo handler returns the elements: the response decodes to the request's elements
+            let back = x.decode_typed_slice::<u16>();
+            match &back {
+                Ok(v) => assert!(v.len() == 2 && v[0] == xs[0] && v[1] == xs[1], "elements changed between request and handler"),
+                Err(_) => panic!("response body is not a bulk array"),
+            }
+            std::mem::forget(back);
+        }
+        (Err(_), Err(_)) => panic!("a well-formed bulk request failed on both paths"),
+        _ => panic!("one dispatch path succeeds where the other fails"),
+    }
+    std::mem::forget(a);
+    std::mem::forget(b);
+    std::mem::forget(req);
+}
+
+//@ prop: C07, C08
+//@ tier: experimental
+//@ timeout: 3000
+//@ clause: the alignment-padded form sent to a borrowing bulk route yields the same elements through the copying and the zero-copy dispatch paths (borrowed when aligned, copied otherwise)
+//@ funcs: TypedSliceRefHandler::<u16,u16>::handle; ::handle_view; decode_typed_slice_ref_param; decode_typed_slice_ref_body; beve::read_aligned_typed_slice_ref; beve::read_aligned_typed_slice; MessageBuilder::body_aligned_typed_slice; create_typed_slice_response_unstamped(_view)
+//@ symbolic: 2 elements of u16 (all bit patterns), request id
+//@ bounds: aligned wire form; query "/vx" (3 bytes); 2 elements; unwind 80
+//@ oracle: responses equal after echo; ec == 0; response decodes to the request's elements
+//@ stubs: alloc::fmt::format -> stub
+#[kani::proof]
+#[kani::stub(std::fmt::format, crate::verif_common::format_stub)]
+#[kani::unwind(80)]
+fn c08_ref_route_aligned_owned_vs_view() {
+    ref_handler_paths::<true>();
+}
+
+//@ prop: C07, C08
+//@ tier: experimental
+//@ timeout: 3000
+//@ clause: as c08_ref_route_aligned_owned_vs_view for the plain (unpadded) bulk form sent to the borrowing route
+//@ funcs: TypedSliceRefHandler::<u16,u16>::handle; ::handle_view; decode_typed_slice_ref_body; beve::read_typed_slice
+//@ symbolic: 2 elements of u16, request id
+//@ bounds: plain bulk form; query "/vx"; 2 elements; unwind 80
+//@ oracle: responses equal after echo; ec == 0; response decodes to the request's elements
+//@ stubs: alloc::fmt::format -> stub
+#[kani::proof]
+#[kani::stub(std::fmt::format, crate::verif_common::format_stub)]
+#[kani::unwind(80)]
+fn c08_ref_route_plain_owned_vs_view() {
+    ref_handler_paths::<false>();
+}
